@@ -16,3 +16,5 @@ def run(rep, tier, seed):
     rep.remainder = ('that each of the ~300 per-node-type handlers chooses the right rectangle, text and AST: covered '
                      'by the bounded sweep only (a mutant inside a handler is caught only there)')
     rep.trusted.append('bounded part: CPython ast.parse is the oracle; scope = corpus programs x operation table')
+    rep.assumptions.append('re-indentation kernel: indentation strings are ASCII (byte length == length); leading-blank '
+                           'count and startswith(dedent) of an original line are uninterpreted functions of the line')
